@@ -128,14 +128,31 @@ def sample_paths(globs: list, rnd: random.Random, n_random: int, full_len: int) 
     return paths
 
 
+# "every other character matches only itself" also for characters that Unicode normalisation would identify: the letters
+# K and Q of the abstract alphabet are written as "K" (U+004B) and the KELVIN SIGN (U+212A), E and F as a composed and a
+# decomposed e-acute.  (TLC reads ASCII only: the trace carries the abstract letters.)
+UNI = {"Q": "\u212a", "E": "\u00e9", "F": "e\u0301"}
+
+
+def uni(chars: list) -> str:
+    return "".join(UNI.get(c, c) for c in chars)
+
+
 def api_case(case: dict) -> dict:
     """Ask the real matcher about concrete paths."""
     from reuse.global_licensing import AnnotationsItem
     rnd = random.Random(case["seed"])
-    globs = ["".join(g) for g in case["globs"]]
+    globs = [uni(g) for g in case["globs"]]
     item = AnnotationsItem(paths=globs)
     paths = sample_paths(case["globs"], rnd, case["n_random"], case["full_len"])
-    obs = [bool(item.matches("".join(p))) for p in paths]
+    if case.get("unicode"):
+        twin = {"K": "Q", "Q": "K", "E": "F", "F": "E"}
+        extra = []
+        for g in case["globs"]:
+            lit = [c for c in g if c not in "*\\"]
+            extra += [lit, [twin.get(c, c) for c in lit], ["d", "/"] + lit, ["d", "/"] + [twin.get(c, c) for c in lit]]
+        paths = extra + paths[:40]
+    obs = [bool(item.matches(uni(p))) for p in paths]
     return {"tid": case["id"], "globs": case["globs"], "paths": paths, "obs": obs, "via": "api",
             "impl": case.get("impl") or []}
 
@@ -310,6 +327,8 @@ def run(ctx: core.Ctx) -> int:
         b = by_id[c["id"]]
         api_cases.append({**c, "impl": b["impl"], "n_random": 30 if q else 80,
                           "full_len": 2 if (q or len(c["globs"]) > 1 or len(c["globs"][0]) > 5) else 3})
+    for g_ in ([["K", ".", "t"]], [["Q", "*"]], [["*", "*", "/", "K"]], [["E", ".", "t"]], [["F", "*"]], [["d", "/", "*", "E"]], [["K"], ["F", ".", "t"]]):
+        api_cases.append({"id": 30_000_000 + len(api_cases), "globs": g_, "seed": ctx.seed, "impl": [], "n_random": 20, "full_len": 1, "unicode": True})
     events = ctx.pmap(api_case, api_cases)
     lint_n = 160 if q else 2500
     lint_cases = [{**c, "nested": bool(i % 2), "relroot": i % 4 >= 2} for i, c in enumerate(rnd.sample(cases, min(lint_n, len(cases))))]
